@@ -15,8 +15,8 @@ import sys
 import shutil
 
 ROOT = os.path.dirname(os.path.dirname(os.path.abspath(__file__)))
-ALT = "/tmp/alt-seed"
-EVD = "/tmp/alt-evidence"
+ALT = "/tmp/alt-seed-%d" % os.getpid()      # private per invocation: concurrent runs must not share a worktree
+EVD = "/tmp/alt-evidence-%d" % os.getpid()
 
 
 def sh(cmd, **kw):
@@ -29,7 +29,7 @@ def main():
     if "--tier" in sys.argv:
         tier = sys.argv[sys.argv.index("--tier") + 1]
         args.remove(tier)
-    keep = "--keep" in sys.argv
+    keep = False        # (--keep is accepted and ignored: every run uses its own scratch worktree)
     seed, checks = args[0], args[1:]
     patch = os.path.join(ROOT, seed, "patch.diff") if not os.path.isabs(seed) else os.path.join(seed, "patch.diff")
     head = sh(["git", "-C", "/repo", "rev-parse", "HEAD"]).stdout.strip()
@@ -61,7 +61,8 @@ def main():
         shutil.rmtree(ALT, ignore_errors=True)
         shutil.rmtree(EVD, ignore_errors=True)
         sh(["git", "-C", "/repo", "worktree", "prune"])
-        shutil.rmtree(os.path.join(ROOT, ".build", "alt"), ignore_errors=True)
+        import hashlib
+        shutil.rmtree(os.path.join(ROOT, ".build", "alt", hashlib.sha256(ALT.encode()).hexdigest()[:8]), ignore_errors=True)
     return rc
 
 
